@@ -14,8 +14,23 @@ PROP = dict(
         "(anything else is outside the model and checked only for 'no panic')",
         "programs of depth <= 4; closure-call depth <= 60",
     ],
-    level_text="PLACEHOLDER",
-    level_note="PLACEHOLDER",
+    level_text="Proof (layer 1, compile/evaluate): 31 Lean theorems about an executable transliteration of syntax/compile.go's decisions "
+               "(compileLet/Arrow/Function, NewCallExpr, ExprAsFunction, ExprExpr for parentheses, literal folding, cond) and of the Eval "
+               "methods over values + closures. A simulation theorem (`sim`) over the congruence closure of the documented rewrites gives "
+               "`rewrite_inert`: programs related by let = arrow = call, parentheses (also around a function literal operand), "
+               "folded vs unfolded literal collections, a let-bound atomic literal substituted capture-avoidingly for its name, the default "
+               "binder `\\.`, and branches of &&, ||, cond that a literal guard never selects - at any positions, any number at once - return "
+               "the same value or both fail, for all closure-call budgets (if both return). Plus: cond/&&/|| evaluate only the selected branch "
+               "for arbitrary guards (root position, any environment); lexical scope (exact equality); arrays, dicts, strings, booleans equal "
+               "their spelled-out sets of tuples. Partial for today's compiler where compile-time folding fails (fold_inert_partial + "
+               "fold_inert_full_false, known finding). Facts + correspondence (layer 2, text to tree): the precedence tower regenerated from "
+               "syntax/arrai.wbnf equals the documented one (decide); printers with minimal / full parentheses, comments and white space are "
+               "checked differentially through the real parser on every run.",
+    level_note="Layer 2 is NOT a proof: the third-party wbnf parser is not modelled; precedence/associativity, comments, white space and "
+               "parenthesisation are validated by differential testing of generated source text only (plus the regenerated precLevels "
+               "obligation). Not proved, tested only: renaming the default binder `.` to a fresh explicit name (alpha-renaming); substitution of "
+               "collection-valued literals; rewrites in programs outside the modelled fragment. Theorems hold 'if both sides return' "
+               "(a side that exhausts its closure-call budget is related to anything); the first-order fragment needs budget 0.",
     design_ref="DESIGN.md section 6, C08",
     watch=["syntax.ParseContext.compileLet", "syntax.ParseContext.compileArrow", "syntax.ParseContext.compileFunction",
            "syntax.ParseContext.compileExpr", "syntax.ParseContext.compileCondWithoutControlVar", "syntax.ParseContext.compileSet",
